@@ -14,7 +14,7 @@ import (
 
 // mountsim (C06): routing spec + twin constituents, cross-mount rename under faults, concurrent AddMount.
 
-var c06Points = []string{"a", "ab", "b", "a/b", "a/b/c", "ab/c"}
+var c06Points = []string{"a", "ab", "b", "a/b", "a/b/c", "ab/c", "a.x", "a-b"} // ("." and "-" sort below "/": a.x lies between a and a/b in a sorted table)
 
 var memFullIfs = []string{"OpenFile", "Mkdir", "MkdirAll", "Remove", "Rename", "Stat", "Chmod", "Chtimes"}
 
@@ -56,7 +56,7 @@ func sortedKeys(m map[string]hackpadfs.FS) []string {
 
 // buildMountWorld mounts a drawn subset of the candidate points (parents first) and mirrors the
 // directories it needs on the twin constituents.
-func buildMountWorld(t *T, want []string, wrap bool) *mountWorld {
+func buildMountWorld(t *T, want []string, wrap bool, ifsFor ...func(point string) []string) *mountWorld {
 	w := &mountWorld{t: t, parts: map[string]hackpadfs.FS{}, twin: map[string]hackpadfs.FS{}, cores: map[string]*capCore{}}
 	newPart := func(point string) (hackpadfs.FS, hackpadfs.FS) {
 		a, _ := mem.NewFS()
@@ -70,7 +70,11 @@ func buildMountWorld(t *T, want []string, wrap bool) *mountWorld {
 		if wrap {
 			core := &capCore{t: t, inner: a, faultAt: -1, label: point + ":", writing: map[string]int{}}
 			w.cores[point] = core
-			mounted = newCapFS(core, memFullIfs)
+			ifs := memFullIfs
+			if len(ifsFor) > 0 {
+				ifs = ifsFor[0](point)
+			}
+			mounted = newCapFS(core, ifs)
 		}
 		return mounted, b
 	}
@@ -259,12 +263,21 @@ func c06Routing(t *T) {
 // c06CrossRename: rename of a regular file across two mounts with faults on either side.
 func c06CrossRename(t *T) {
 	c := t.C
-	w := buildMountWorld(t, []string{"a", "b"}, true)
 	srcPt := []string{"a", "b", "."}[c.Draw(3)]
 	dstPt := []string{"b", "a", "."}[c.Draw(3)]
 	if srcPt == dstPt {
 		dstPt = map[string]string{"a": "b", "b": ".", ".": "a"}[srcPt]
 	}
+	// a destination file system that can make and write files but has no Chmod at all, neither on the file system
+	// nor on its handles (only where the destination is new: a mode it cannot set on an existing file is not the
+	// property's business)
+	dstNoChmod := c.Chance(1, 4)
+	w := buildMountWorld(t, []string{"a", "b"}, true, func(point string) []string {
+		if dstNoChmod && point == dstPt {
+			return []string{"OpenFile", "Mkdir", "MkdirAll", "Remove", "Rename", "Stat", "Chtimes"}
+		}
+		return memFullIfs
+	})
 	data := uniqueData(1, []int{1500, 0, 1, 513, 40000}[c.Draw(5)])
 	mode := []hackpadfs.FileMode{0644, 0600, 0755}[c.Draw(3)]
 	name := func(pt, base string) string {
@@ -275,7 +288,10 @@ func c06CrossRename(t *T) {
 	}
 	src, dst := name(srcPt, "src"), name(dstPt, "dst")
 	must(t, hackpadfs.WriteFullFile(w.cores[srcPt].inner, "src", data, mode))
-	dstExisted := c.Chance(1, 3)
+	dstExisted := c.Chance(1, 3) && !dstNoChmod
+	if dstNoChmod {
+		w.cores[dstPt].fileMode = "only:Write"
+	}
 	if dstExisted {
 		must(t, hackpadfs.WriteFullFile(w.cores[dstPt].inner, "dst", []byte("old destination"), 0600))
 	}
@@ -287,7 +303,7 @@ func c06CrossRename(t *T) {
 		w.cores[faultSide].lossyClose = true
 	}
 	pre := w.snapshotParts(w.parts, true)
-	t.Logf("mode=cross-rename %s -> %s (%d bytes, mode %04o) destination existed=%v fault side=%q", src, dst, len(data), mode, dstExisted, faultSide)
+	t.Logf("mode=cross-rename %s -> %s (%d bytes, mode %04o) destination existed=%v (without Chmod=%v) fault side=%q", src, dst, len(data), mode, dstExisted, dstNoChmod, faultSide)
 	err := w.mfs.Rename(src, dst)
 	fired := ""
 	if faultSide != "" {
@@ -332,6 +348,8 @@ func c06ConcurrentAddMount(t *T) {
 	targets := []string{"a", "a", "a", "a/b", "b"}
 	results := make([]error, ntasks)
 	points := make([]string, ntasks)
+	mems := make([]*mem.FS, ntasks)
+	var rootFS *mem.FS
 	var mfs *mount.FS
 	var badFS *mem.FS
 	var badErr error
@@ -341,10 +359,28 @@ func c06ConcurrentAddMount(t *T) {
 		must(t, root.MkdirAll("a/b", 0755))
 		must(t, root.Mkdir("b", 0755))
 		mfs, _ = mount.NewFS(root)
+		rootFS = root
+		// a task that only looks paths up while the mounting goes on (whatever a lookup remembers must not outlive
+		// the table it was made against)
+		if c.Chance(1, 2) {
+			lookups := []string{"a/zz", "a/b/zz", "b/zz", "a"}
+			nl := 1 + c.Draw(3)
+			var seq []string
+			for j := 0; j < nl; j++ {
+				seq = append(seq, lookups[c.Draw(len(lookups))])
+			}
+			s.Go("looker", func() {
+				for _, p := range seq {
+					_, err := hackpadfs.Stat(mfs, p)
+					t.Logf("looker Stat(%q) -> %s", p, errClass(err))
+				}
+			})
+		}
 		for i := 0; i < ntasks; i++ {
 			i := i
 			points[i] = targets[c.Draw(len(targets))]
 			m, _ := mem.NewFS()
+			mems[i] = m
 			must(t, m.Mkdir("b", 0755)) // so that a/b also exists inside a mount at a
 			s.Go(fmt.Sprintf("mounter%d", i), func() {
 				results[i] = mfs.AddMount(points[i], m)
@@ -376,6 +412,36 @@ func c06ConcurrentAddMount(t *T) {
 		}
 		t.Logf("mode=concurrent-addmount %v", points)
 		s.Run()
+		if !t.Failed() {
+			// afterwards, alone: a file written below each mounted point lands in the file system that won that point
+			// (the longest one), under the remainder of the path, and nowhere else
+			var table []string
+			winner := map[string]*mem.FS{}
+			for i, p := range points {
+				if results[i] == nil {
+					if _, dup := winner[p]; !dup {
+						table = append(table, p)
+					}
+					winner[p] = mems[i]
+				}
+			}
+			probes := []string{"a/zz", "a/b/zz", "b/zz"}
+			for _, pi := range c.Perm(len(probes)) {
+				pth := probes[pi]
+				pt, sub := routeSpec(table, pth)
+				target := hackpadfs.FS(rootFS)
+				if pt != "." {
+					target = winner[pt]
+				}
+				err := hackpadfs.WriteFullFile(mfs, pth, []byte("probe"), 0644)
+				_, serr := hackpadfs.Stat(target, sub)
+				t.Logf("afterwards WriteFullFile(%q) -> %v; expected in the FS mounted at %q as %q: %v", pth, err, pt, sub, serr)
+				if err == nil && serr != nil {
+					t.failNoPanic("leak", "C06:concurrent-addmount:misrouted-afterwards", fmt.Sprintf("after the concurrent AddMount calls (table %v) WriteFullFile(%q) succeeded but the file is not in the file system mounted at %q under %q (%v)", table, pth, pt, sub, serr))
+					break
+				}
+			}
+		}
 		if badFS != nil && !t.Failed() {
 			if badDone && badErr == nil {
 				t.failNoPanic("addmount", "C06:concurrent-addmount:bad-point-accepted", "AddMount on a missing directory / a regular file succeeded")
